@@ -82,6 +82,12 @@ package util
 //@   ensures [hooks-ordered-by-kind] result2 == nil ==> (forall a, b int :: 0 <= a && a < b && b < len(result0) ==> result0[a] != nil && result0[b] != nil && !kindBefore(result0[b].Kind, result0[a].Kind, ordering))
 //@   loop 1 invariant [order-table-untouched] distinctKinds(ordering) && result != nil && len(result.generic) == 0 && len(result.hooks) == 0
 //@   loop 1 invariant [paths-in-a-new-list] len(sortedFilePaths) == 0 || fresh(sortedFilePaths)
+//@   loop 1 invariant [visited-paths-listed] forall p string :: #done[p] ==> (exists j int :: 0 <= j && j < len(sortedFilePaths) && sortedFilePaths[j] == p)
+//@   ensures [every-rendered-file-is-sorted] result2 == nil ==> (forall p string :: has(files, p) && !strings.HasPrefix(pbase(p), "_") && trimspace(files[p]) != "" ==> GsortedFiles[p])
+//@   loop 1 invariant [only-paths-listed] forall j int :: 0 <= j && j < len(sortedFilePaths) ==> has(files, sortedFilePaths[j])
+//@   loop 2 invariant [only-paths-listed] forall j int :: 0 <= j && j < len(#range) ==> has(files, #range[j])
+//@   loop 2 invariant [every-path-listed] forall p string :: has(files, p) ==> (exists j int :: 0 <= j && j < len(#range) && #range[j] == p)
+//@   loop 2 invariant [files-so-far-are-sorted] forall j int :: 0 <= j && j < #iter && !strings.HasPrefix(pbase(#range[j]), "_") && trimspace(files[#range[j]]) != "" ==> GsortedFiles[#range[j]]
 //@   loop 2 invariant [collected-manifests-have-heads] forall q int :: 0 <= q && q < len(result.generic) ==> result.generic[q].Head != nil
 //@   loop 2 invariant [collected-hooks-exist] forall q int :: 0 <= q && q < len(result.hooks) ==> result.hooks[q] != nil
 //@   loop 2 invariant [order-table-untouched] distinctKinds(ordering)
@@ -123,6 +129,7 @@ package util
 
 //@ func (*manifestFile).sort
 //@   props C08
+//@   records GsortedFiles = store(old(GsortedFiles), old(file.path), true)
 //@   requires file != nil && result != nil && file.entries != nil
 //@   ensures [hooks-name-only-known-events] forall q int :: old(len(result.hooks)) <= q && q < len(result.hooks) ==> hookFromDoc(result.hooks[q])
 //@   ensures [manifests-carry-no-hook-annotation] forall q int :: old(len(result.generic)) <= q && q < len(result.generic) ==> !docHasHookAnno(result.generic[q].Content) && result.generic[q].Head != nil
